@@ -336,7 +336,7 @@ def main (path : String) : IO Unit := do
           if skipLoad then
             if actor == "flusher" then rs := { rs with skipF := false } else rs := { rs with skipP := false }
           match ws with
-          | ["K", who, _, "sendmsg", _, n, _] =>
+          | ["K", who, _, "sendmsg", _, n, _, _] =>
               if toInt n > 0 then
                 if who == "flusher" then rs := { rs with skipF := true } else if who == "wpoller" then rs := { rs with skipP := true }
           | _ => pure ()
